@@ -398,15 +398,22 @@ def _on_alarm(signum, frame):
     raise _Timeout()
 
 
-def real(line: str, budget_s: float = 10.0) -> str:
+_timeouts = 0
+
+
+def real(line: str, budget_s: float = 3.0) -> str:
     """Run one protocol line on the real code under a wall-clock guard, so a
     non-terminating decoder shows up as `EXC Timeout` instead of hanging the check."""
     import signal
+    global _timeouts
+    if _timeouts >= 5:
+        return "EXC Timeout(skipped)"      # enough evidence; do not spend minutes on a looping decoder
     old = signal.signal(signal.SIGALRM, _on_alarm)
     signal.setitimer(signal.ITIMER_REAL, budget_s)
     try:
         return _real(line)
     except _Timeout:
+        _timeouts += 1
         return "EXC Timeout"
     finally:
         signal.setitimer(signal.ITIMER_REAL, 0)
@@ -440,7 +447,20 @@ def _real(line: str) -> str:
         if cmd == "AVPVAL":
             ty = int(toks[1])
             a = TAG_TY[ty](0, 0, bytes.fromhex(toks[2]))
-            return show_value(a.value, ty)
+
+            def read():
+                try:
+                    return show_value(a.value, ty)
+                except Exception as e:  # noqa
+                    return exc(e)
+            first = read()
+            str(a) if first == "EXC AvpDecodeError" else None
+            second = read()
+            if first != second:
+                return f"UNSTABLE first={first} second={second}"
+            if first.startswith("EXC"):
+                return first
+            return first
         if cmd == "AVPSET":
             ty = int(toks[1])
             a = TAG_TY[ty](0, 0)
@@ -492,7 +512,7 @@ def _real(line: str) -> str:
                     outs.append("[" + ",".join(avpobj(a) for a in r) + "]")
                 except Exception as e:  # noqa
                     outs.append(exc(e))
-            return " ".join(outs)
+            return ";".join(outs)
         if cmd == "TYPED":
             ast, _ = parse_fval(toks[1])
             o = build_obj(ast)
